@@ -36,14 +36,15 @@ Definition jit_char (c : N) : bool :=
 Definition isize_min : Z := (- 2 ^ 63)%Z.
 Definition isize_max : Z := (2 ^ 63 - 1)%Z.
 Definition in_isize (z : Z) : bool := (isize_min <=? z)%Z && (z <=? isize_max)%Z.
-(* debug-build arithmetic: the result, or an overflow panic *)
+(* isize::checked_mul / checked_add / checked_sub: the result, or None on overflow *)
 Definition checked (z : Z) : option Z := if in_isize z then Some z else None.
 
 (* ---------- results ---------- *)
 Inductive pres (A : Type) :=
 | POk (a : A)
 | PErr                 (* PathParseError::InvalidPathSyntax (a BorrowedSegment::Invalid was produced) *)
-| PPanic               (* arithmetic overflow in the index accumulation (overflow checks on) *)
+| PPanic               (* a panic caught by the harness; Proofs/PathTextProofs.v shows the model never returns it
+                          (until /repo 8dcbd4e the index accumulation overflowed here) *)
 | PUnreachable.        (* a branch the Rust cannot reach; Proofs/PathTextProofs.v shows the model never returns it *)
 Arguments POk {A} a.
 Arguments PErr {A}.
@@ -147,10 +148,11 @@ Fixpoint jit (st : jstate) (cs : text) (out : list seg) {struct cs} : pres path 
           else PErr
       | JIndex v =>
           if is_digit c then
-            match checked (v * 10) with                       (* value * 10 *)
-            | None => PPanic
-            | Some m => match checked (m + digit_val c) with  (* + new_digit *)
-                        | None => PPanic
+            (* value.checked_mul(10).and_then(|v| v.checked_add(new_digit)); None => Invalid *)
+            match checked (v * 10) with
+            | None => PErr
+            | Some m => match checked (m + digit_val c) with
+                        | None => PErr
                         | Some v' => jit (JIndex v') r out
                         end
             end
@@ -159,9 +161,9 @@ Fixpoint jit (st : jstate) (cs : text) (out : list seg) {struct cs} : pres path 
       | JNegIndex v =>
           if is_digit c then
             match checked (v * 10) with
-            | None => PPanic
+            | None => PErr
             | Some m => match checked (m - digit_val c) with
-                        | None => PPanic
+                        | None => PErr
                         | Some v' => jit (JNegIndex v') r out
                         end
             end
